@@ -1,63 +1,67 @@
-(* Histories of style operations keep the invariant (uniqueness by tag class + family + name per container, default
-   styles unnamed).  Parametric in the tables; the three conditions on the tables are discharged for the generated
-   tables in C13.v by vm_compute. *)
+(* Histories over the whole operation alphabet of C13 keep the part-level invariant [Inv2] (uniqueness of
+   (tag class, family, name) per container and across the containers of a part, default styles unnamed, every style
+   in a container its part searches for its family).  Parametric in the tables; [tables_ok] is discharged for the
+   generated tables in C13.v by vm_compute. *)
 From Coq Require Import List ZArith Bool Arith Lia.
-Require Import Styles Stylesproof.
+Require Import Styles Stylesproof Stylespart Stylesops.
 Import ListNotations.
 Open Scope Z_scope.
 
 Section Hist.
 Variable T : tables.
 Variable fams : list Z.
-Hypothesis HWT : wf_tables T = true.
-Hypothesis HCP : forall f m, In f fams -> covers_part T f m = true.
-Hypothesis HAUTO : forall f, In f fams -> special T f = false -> In (slot_of false 1) (part_slots T false f).
+Hypothesis TOK : tables_ok T fams = true.
 
 Inductive op :=
 | OInsert (s0 : entry) (name_arg : option sname) (automatic default : bool)
-| ODelete.
+| ODelete
+| OMerge (other : store)
+| OPageBreak (n : sname) (existing_ok : option bool) (eid_new : Z)
+| OTable (tidx : nat) (eid_created eid_final : Z).
 
-(* insertions the theorem speaks about: a style whose tag is the tag of its (known) family, not a default-style
-   element; either it ends up named (and default=True only for master page / font face / page layout, where the flag
-   is ignored), or it is an unnamed automatic style of an ordinary family *)
-Definition insert_in_domain (s0 : entry) (name_arg : option sname) (automatic default : bool) : Prop :=
-  let s := final_style s0 name_arg in
-  exists f, In f fams /\ wf_style T s f /\ negb (etag s0 =? t_default T) = true /\
-    ((exists n, ename s = Some n /\ (special T f = true \/ default = false))
-     \/ (ename s0 = None /\ name_arg = None /\ automatic = true /\ default = false /\ special T f = false)).
+(* the other document of a merge satisfies the invariant itself and lists proper styles only *)
 Definition in_domain (o : op) : Prop :=
-  match o with OInsert s0 na a d => insert_in_domain s0 na a d | ODelete => True end.
+  match o with
+  | OInsert s0 na a d => insert_dom T fams s0 na a d
+  | OMerge other => Inv2 T other /\ Forall (fun p => mergeable_entry T (fst p) (snd p)) (all_styles T other)
+  | _ => True
+  end.
 
 (* a step that raises (Rejected / Crashed) leaves the document as it was *)
-Definition step (st : store) (o : op) : store :=
+Definition step (d : sdoc) (o : op) : sdoc :=
   match o with
-  | OInsert s0 na a d => match insert_style T false st s0 na a d with Done (st', _) => st' | _ => st end
-  | ODelete => fst (delete_styles T st)
+  | OInsert s0 na a df => match insert_style T false (sstore d) s0 na a df with
+                          | Done (st', _) => mkS st' (stables d) | _ => d end
+  | ODelete => mkS (fst (delete_styles T (sstore d))) (stables d)
+  | OMerge other => match merge_styles_from T false (sstore d) other with
+                    | Done (st', _) => mkS st' (stables d) | _ => d end
+  | OPageBreak n ok eid => match add_page_break_style T false (sstore d) n ok eid with
+                           | Done st' => mkS st' (stables d) | _ => d end
+  | OTable tidx e1 e2 => match set_table_displayed T false d tidx e1 e2 with Done d' => d' | _ => d end
   end.
-Definition Inv (st : store) : Prop := uniq T st = true /\ wf_store T st = true.
 
-Lemma wf_entry_final s0 na : negb (etag s0 =? t_default T) = true -> wf_entry T (final_style s0 na) = true.
+Theorem step_inv d o : Inv2 T (sstore d) -> in_domain o -> Inv2 T (sstore (step d o)).
 Proof.
-  intros H. unfold wf_entry. replace (etag (final_style s0 na)) with (etag s0) by (destruct na; reflexivity).
-  apply negb_true_iff in H. now rewrite H.
+  intros I D. destruct o as [s0 na a df| |other|n ok eid|tidx e1 e2]; cbn [step in_domain] in *.
+  - destruct (insert_style T false (sstore d) s0 na a df) as [[st' ret]| |] eqn:E; auto. cbn [sstore].
+    destruct (insert_inv2 T fams TOK (sstore d) s0 na a df st' ret I D E) as (f & s' & _ & _ & _ & _ & _ & I' & _). exact I'.
+  - cbn [sstore]. now apply (delete_styles_inv2 T).
+  - destruct (merge_styles_from T false (sstore d) other) as [[st' o']| |] eqn:E; auto. cbn [sstore].
+    destruct D as [Io Fo].
+    destruct (merge_union T fams TOK (sstore d) other st' o' I Fo (PW_all_styles T other Io) E) as (_ & I' & _). exact I'.
+  - destruct (add_page_break_style T false (sstore d) n ok eid) as [st'| |] eqn:E; auto. cbn [sstore].
+    eapply (add_page_break_inv2 T fams TOK); eauto.
+  - destruct (set_table_displayed T false d tidx e1 e2) as [d'| |] eqn:E; auto.
+    eapply (set_table_displayed_inv2 T fams TOK); eauto.
 Qed.
 
-Theorem step_inv st o : Inv st -> in_domain o -> Inv (step st o).
+Theorem history_inv ops : forall d, Inv2 T (sstore d) -> Forall in_domain ops -> Inv2 T (sstore (fold_left step ops d)).
 Proof.
-  intros [U W] D. destruct o as [s0 na a d|]; cbn [step in_domain] in *.
-  - destruct (insert_style T false st s0 na a d) as [[st' ret]| |] eqn:I; try (split; assumption).
-    destruct D as (f & Hf & WS & Hd & [(n & Hn & SD)|(Hn & -> & -> & -> & Sp)]).
-    + destruct (insert_named_ok T st s0 na a d f n st' ret HWT WS Hn (wf_entry_final s0 na Hd) U W (HCP f _ Hf) SD I)
-        as (_ & l' & _ & _ & _ & U' & W' & _). split; assumption.
-    + cbn [final_style] in WS. destruct WS as [WS1 WS2].
-      destruct (insert_auto_unnamed_ok T st s0 f st' ret HWT U W WS1 WS2 Hn Hd Sp (HAUTO f Hf Sp) I)
-        as (k & _ & _ & l' & _ & _ & U' & W' & _). split; assumption.
-  - destruct (delete_styles_inv T st U W). split; assumption.
-Qed.
-
-Theorem history_inv ops : forall st, Inv st -> Forall in_domain ops -> Inv (fold_left step ops st).
-Proof.
-  induction ops as [|o r IH]; intros st I F; [exact I|]. inversion F; subst. cbn [fold_left].
+  induction ops as [|o r IH]; intros d I F; [exact I|]. inversion F; subst. cbn [fold_left].
   apply IH; auto. now apply step_inv.
 Qed.
+
+(* the per-container statement of the property follows *)
+Corollary history_uniq ops d : Inv2 T (sstore d) -> Forall in_domain ops -> uniq T (sstore (fold_left step ops d)) = true.
+Proof. intros I F. exact (i_uniq T _ (history_inv ops d I F)). Qed.
 End Hist.
